@@ -73,7 +73,7 @@ package semap
 //@   ensures #held old(s.cur) >= n
 //@   ensures #inv winv(s) && headblocked(s)
 //@   ensures #idle result <==> (s.cur == 0 && wq(s).lcnt == 0)
-//@   ensures #conserved total(s) == old(total(s)) - n
+//@   ensures #conserved total(s) == old(total(s)) - n && s.cur >= old(s.cur) - n
 //@   ensures #nonew forall e *list.Element :: { wq(s).lmem[e] } queued(s, e) ==> old(queued(s, e))
 //@   ensures #closed forall e *list.Element :: { old(wq(s).lmem[e]) } old(queued(s, e)) && !queued(s, e) ==> chanclosed(waiter(e.Value).ready)
 //@   ensures #onlymine forall e *list.Element :: { chanclosed(waiter(e.Value).ready) } chel[waiter(e.Value).ready] == e && chanclosed(waiter(e.Value).ready) != old(chanclosed(waiter(e.Value).ready)) ==> old(queued(s, e)) && !queued(s, e)
@@ -127,7 +127,7 @@ package semap
 //@   requires s != nil && s.mux != nil && !held(s.mux) && s.rwRatio >= 1
 //@   requires #mine w != nil && w.gmap == s && w.gkey == key && (n == 1 || n == s.rwRatio)
 //@   atlock #holder w.cur >= n
-//@   atunlock #released total(w) == old(total(w)) - n && w.cur <= old(w.cur) - n + (old(total(w)) - old(w.cur))
+//@   atunlock #released total(w) == old(total(w)) - n && w.cur >= old(w.cur) - n
 //@   atunlock #entry has(s.m, key) <==> (w.cur > 0 || wq(w).lcnt > 0)
 //@   ensures #unlocked !held(s.mux)
 //@   modifies everything()
